@@ -16,7 +16,7 @@ OFFSETS = [6, 39, 40, 41, -1]
 
 def endings(quick):
     out = ["release", "security", "malformed", "never-handshaken-close", "handshake-then-close"]
-    for k in OFFSETS:
+    for k in (OFFSETS if quick else list(range(1, 96)) + [-1]):      # thorough: every byte offset of the request
         out.append("abrupt@%d" % k)
         out.append("reset@%d" % k)
     out.append("timeout-partial")
@@ -264,9 +264,13 @@ def configs(quick):
                 for other in (True, False):
                     if quick and not other and (tracked, untracked) != (2, 1):
                         continue
+                    if not quick and "@" in ending and ending.split("@")[1] not in ("6", "39", "40", "41", "-1") and ((tracked, untracked) != (2, 1) or not other):
+                        continue      # the extra byte offsets of the thorough tier: one resource shape, with the second connection
                     if quick and (tracked, untracked) == (2, 2) and not ending.startswith(("release", "reset@40")):
                         continue
                     p = 1 if (other and (tracked, untracked) in ((2, 1), (1, 0)) and (not quick or server == "multiplex" or ending in ("release", "reset@40", "security"))) else 0
+                    if not quick and "@" in ending and ending.split("@")[1] not in ("6", "39", "40", "41", "-1"):
+                        p = 0
                     out.append({"server": server, "ending": ending, "tracked": tracked, "untracked": untracked, "other": other, "p": p, "r": 1 if quick else 2, "horizon": 4000})
         out.append({"server": server, "ending": "release", "tracked": 1, "untracked": 0, "other": True, "hook_raises": True, "p": 1, "r": 1, "horizon": 4000})
         for ending in ("release", "reset@40", "security"):
@@ -289,7 +293,7 @@ def run(ctx):
              "still open while it is connected; distinct = observation vectors" % len(endings(ctx.quick)),
         extra={"configs": len(cfgs)})
     return {"violations": stats.violations, "coverage": cov,
-            "assumptions": ["byte offsets at field boundaries (every byte in the thorough tier is not needed: the reader is length-driven, see C06/C17)",
+            "assumptions": ["quick tier: byte offsets at field boundaries; thorough tier: every byte offset of the request under the default schedule",
                             "an idle peer on a multiplex server is not timed out by design (nothing is read)"]}
 
 
